@@ -299,7 +299,10 @@ func (c *Ctx) PhiLeafEdges(v ssa.Value, pat string) []Edge {
 	seen := map[ssa.Value]bool{}
 	var walk func(x ssa.Value, e *Edge)
 	walk = func(x ssa.Value, e *Edge) {
-		if phi, ok := x.(*ssa.Phi); ok && !seen[x] {
+		if phi, ok := x.(*ssa.Phi); ok {
+			if seen[x] {
+				return // a loop-carried self reference is not a leaf
+			}
 			seen[x] = true
 			for i, ev := range phi.Edges {
 				walk(ev, &Edge{phi.Block().Preds[i], phi.Block()})
